@@ -148,7 +148,9 @@ class Report:
             lines.append(f'KNOWN-FINDING: property={self.prop} {i.rule} {i.construct} '
                          f'-- {k.get("what", i.why)}')
         replay_paths = []
-        if violations and code != 2:
+        if violations:
+            # a completed rule instance that reports a violation stands on its own: another rule that could not be
+            # evaluated (printed above) leaves *its* clauses undecided, it does not un-decide this one
             code = 1
         if violations:
             os.makedirs(os.path.join(EVIDENCE_DIR, 'replay'), exist_ok=True)
